@@ -15,6 +15,8 @@ TINY = {
     "T11": (11, 8, 1, 0, 1, 17, 1),      # a = p - 3, p = 3 mod 4, n > p
     "T13": (13, 0, 7, 7, 5, 7, 1),       # a = 0, p = 5 mod 8, n < p (x mod n matters)
     "T23": (23, 20, 15, 1, 6, 17, 1),    # a = p - 3, n < p
+    "T17L": (17, 2, 15, 0, 7, 19, 1),    # look-alike of T17: same p and a, other b (invalid-curve set-up); used as the FOREIGN curve only
+    "T11L": (11, 8, 10, 2, 1, 7, 1),     # look-alike of T11
     "T13r": (13, 7, 6, 1, 1, 11, 1),     # n < p and x = n-1, x = 1 are abscissas of points: ECDSA r = n-1 and r = 1 occur (C18)
     "TH2": (11, 1, 1, 0, 1, 7, 2),       # cofactor 2: has the point (2, 0) of order 2 (public-key validation only)
 }
@@ -235,6 +237,21 @@ def ossl_derive(priv_path, peer_path):
     return out
 
 
+def pattern_scalars(ms, n=None):
+    """scalar value classes with long runs / periodic bit patterns (input generation): 0x5555.., 0xAAAA.., 0x3333..,
+    floor(2^m/3), /5, /7, 2^m -+ 2^k, all ones minus one bit, and fractions of the order"""
+    out = set()
+    for m in ms:
+        if m < 3:
+            continue
+        ones = (1 << m) - 1
+        out |= {ones // 3, (ones // 3) << 1, ones // 5, (ones // 5) << 2, (1 << m) // 3, (1 << m) // 5, (1 << m) // 7, (1 << m) // 3 - 1, (1 << m) // 3 + 1,
+                ones ^ (1 << (m // 2)), ones ^ (1 << (m - 2)), ones - 1, (1 << m) - (1 << (m // 3)), (1 << m) + (1 << (m // 3)), (1 << m) + 1}
+    if n:
+        out |= {n // 2, n // 3, (n + 1) // 2, (n - 1) // 2, n // 5, 2 * n // 3, n // 3 + 1, (2 * n) // 3 + 1}
+    return sorted(k for k in out if k > 0)
+
+
 # ------------------------------------------------------------------ deterministic interruption (error-path histories)
 class Interrupt(BaseException):
     """private exception raised by the trace function below: stands for KeyboardInterrupt / a time-out raised from a signal
@@ -293,7 +310,8 @@ class FreshJobs:
             code = ("import sys, pickle; sys.path.insert(0, %r); from harness.common import repo_on_path; repo_on_path(); "
                     "import importlib; m = importlib.import_module(%r); r = getattr(m, %r)(pickle.load(open(%r, 'rb'))); "
                     "pickle.dump(r, open(%r, 'wb'))" % (VERIF, module, func, fin, fout))
-            p = subprocess.Popen([sys.executable, "-c", code], stdout=subprocess.PIPE, stderr=subprocess.STDOUT, cwd=VERIF)
+            p = subprocess.Popen([sys.executable] + subprocess._args_from_interpreter_flags() + ["-c", code],
+                                 stdout=subprocess.PIPE, stderr=subprocess.STDOUT, cwd=VERIF)      # same -O / -W flags as this run
             self.jobs.append((p, fout, "%s.%s[%d]" % (module, func, i)))
 
     def get(self, timeout=2400):
